@@ -342,6 +342,26 @@ func (eng *Engine) takesLocks(f *ssa.Function, depth int, seen map[*ssa.Function
 	return false
 }
 
+// guardContents: a write into the map held by a guarded field (m[k] = v,
+// delete(m, k) with m read directly from the field) needs the write lock, not
+// just the lock the read of the field needs.
+func (fr *Frame) guardContents(m ssa.Value, st *State, reach string, pos token.Pos) {
+	vc := fr.vc
+	if !vc.locksOn || !vc.guardObls || fr.pure {
+		return
+	}
+	u, ok := m.(*ssa.UnOp)
+	if !ok || u.Op != token.MUL {
+		return
+	}
+	fa, ok := u.X.(*ssa.FieldAddr)
+	if !ok {
+		return
+	}
+	l := vc.locOf(fr.get(fa))
+	fr.guardCheck(l, st, reach, pos, true)
+}
+
 type guardInfo struct {
 	muKey string
 	name  string
